@@ -90,6 +90,22 @@ func vdReplayCase(v interface{}) (bool, error) {
 }
 
 // vdSafeValidate runs the generated Validate with panic recovery.
+// vdUndefinedEnumValue: a value the enumerated type does not define. Mostly the first one past the
+// type's own table (a table borrowed from a same-named type of another generated package, or one
+// that is off by one, shows there), sometimes a far one.
+func vdUndefinedEnumValue(p *reg.Pkg, typeName string, rng *rand.Rand) int64 {
+	mx := int64(0)
+	for v := range p.Enum[typeName] {
+		if v > mx {
+			mx = v
+		}
+	}
+	if rng.Intn(3) == 0 {
+		return 99
+	}
+	return mx + 1
+}
+
 func vdSafeValidate(t ygot.ValidatedGoStruct, opts ...ygot.ValidationOption) (err error, panicked bool) {
 	defer func() {
 		if r := recover(); r != nil {
@@ -460,7 +476,7 @@ func vdCollect(p *reg.Pkg, sp reflect.Value, e *yang.Entry, path string, depth i
 					*sites = append(*sites, vdSite{class: vdEnumClass(t), fault: true, desc: here + "[+]",
 						apply: func(g *treeGen) (func(), bool) {
 							bad := reflect.New(fvv.Type().Elem()).Elem()
-							bad.SetInt(99)
+							bad.SetInt(vdUndefinedEnumValue(p, ft.Elem().Name(), g.rng))
 							nv := reflect.MakeSlice(fvv.Type(), 0, fvv.Len()+1)
 							nv = reflect.AppendSlice(nv, fvv)
 							nv = reflect.Append(nv, bad)
@@ -556,10 +572,10 @@ func vdLeafSites(p *reg.Pkg, sp, fv reflect.Value, ft reflect.Type, t *yang.Yang
 		if _, defined := p.Enum[ft.Name()][99]; defined {
 			return
 		}
-		*sites = append(*sites, vdSite{class: vdEnumClass(t), fault: true, desc: here + "=99",
+		*sites = append(*sites, vdSite{class: vdEnumClass(t), fault: true, desc: here + "=undefined (max+1 or 99)",
 			apply: func(g *treeGen) (func(), bool) {
 				bad := reflect.New(ft).Elem()
-				bad.SetInt(99)
+				bad.SetInt(vdUndefinedEnumValue(p, ft.Name(), g.rng))
 				return vdSetField(fv, bad), true
 			}})
 	case yang.Yunion:
@@ -583,10 +599,10 @@ func vdLeafSites(p *reg.Pkg, sp, fv reflect.Value, ft reflect.Type, t *yang.Yang
 						cls = "union-enum-int64"
 					}
 				}
-				*sites = append(*sites, vdSite{class: cls, fault: true, desc: here + "=union enum 99",
+				*sites = append(*sites, vdSite{class: cls, fault: true, desc: here + "=union enum undefined (max+1 or 99)",
 					apply: func(g *treeGen) (func(), bool) {
 						bad := reflect.New(dyn.Type()).Elem()
-						bad.SetInt(99)
+						bad.SetInt(vdUndefinedEnumValue(p, dyn.Type().Name(), g.rng))
 						return vdSetField(fv, bad), true
 					}})
 			}
@@ -607,10 +623,10 @@ func vdLeafSites(p *reg.Pkg, sp, fv reflect.Value, ft reflect.Type, t *yang.Yang
 						cls = "union-enum-int64"
 					}
 				}
-				*sites = append(*sites, vdSite{class: cls, fault: true, desc: here + "=wrapper union enum 99",
+				*sites = append(*sites, vdSite{class: cls, fault: true, desc: here + "=wrapper union enum undefined (max+1 or 99)",
 					apply: func(g *treeGen) (func(), bool) {
 						nw := reflect.New(dyn.Elem().Type())
-						nw.Elem().Field(0).SetInt(99)
+						nw.Elem().Field(0).SetInt(vdUndefinedEnumValue(p, et.Name(), g.rng))
 						return vdSetField(fv, nw), true
 					}})
 			}
@@ -797,6 +813,16 @@ func vdValidateStream(rng *rand.Rand, n int, tier string, out string) (*Summary,
 		per = 1
 	}
 	seenCase := map[string]bool{}
+	// warm-up in the reverse of the order below: whatever the implementation remembers per type
+	// name (not per type) is then first filled by the other of two same-named packages than the one
+	// the main loop meets first; a well-populated valid tree of every package is validated once
+	// (also in a replay: the case is then met in the same state)
+	for i := len(names) - 1; i >= 0; i-- {
+		g := newTreeGen(rand.New(rand.NewSource(int64(i)+1)), reg.Get(names[i]))
+		g.pField = 0.9
+		g.nastyStr = false
+		vdSafeValidate(g.genTree(), opt)
+	}
 	for _, name := range names {
 		if isReplay && rp.Pkg != name {
 			continue
@@ -893,7 +919,7 @@ func vdValidateStream(rng *rand.Rand, n int, tier string, out string) (*Summary,
 					continue
 				}
 				reps := 1
-				if tier == "thorough" && len(cands) > 1 {
+				if len(cands) > 1 && (tier == "thorough" || class == "enum-undefined" || class == "identity-undefined") {
 					reps = 3
 				}
 				for r := 0; r < reps; r++ {
